@@ -34,9 +34,9 @@ func checkIOBrackets(fn *c08fn, st *ioBracketStats) []string {
 	var bad []string
 	var walk func(list []*core.CStmt, top bool)
 	walk = func(list []*core.CStmt, top bool) {
-		saved := map[string]string{}  // io var -> o_K_ var
-		savedAt := map[string]int{}   // io var -> index in list
-		assigned := map[string]int{}  // io var -> first index of a re-pointing assignment at this level
+		saved := map[string]string{} // io var -> o_K_ var
+		savedAt := map[string]int{}  // io var -> index in list
+		assigned := map[string]int{} // io var -> first index of a re-pointing assignment at this level
 		for i, s := range list {
 			if s.Kind != "expr" {
 				continue
